@@ -91,7 +91,7 @@ def out_of_domain(term, bounds):
 def real(case):
     k = case['kind']
     if k == 'mux':
-        r = quiet(muxreal.run_mux, case['term'], case['items'], bounds=case.get('bounds', True), prelude=case.get('prelude'))
+        r = quiet(muxreal.run_mux, case['term'], case['items'], bounds=case.get('bounds', True), prelude=case.get('prelude'), share=case.get('share', False))
         r['chunks'] = muxreal.trunc_chunks(r['chunks'])
         return r
     if k == 'raw':
@@ -99,7 +99,7 @@ def real(case):
         r['chunks'] = trunc_ev_chunks(r['chunks'])
         return r
     if k == 'plain':
-        r = quiet(muxreal.run_plain, case['term'], case['items'], prelude=case.get('prelude'))
+        r = quiet(muxreal.run_plain, case['term'], case['items'], prelude=case.get('prelude'), share=case.get('share', False))
         r['chunks'] = muxreal.trunc_chunks(r['chunks'])
         return r
     raise ValueError(k)
@@ -125,12 +125,30 @@ def add_prelude(case, rng):
     return c
 
 
-def with_preludes(cases, rng, frac=0.12):
-    """every case, and for a fraction of them additionally the re-subscription variant"""
+def add_shared(case, rng):
+    """the pipeline of a flat mux/plain case duplicated into the two branches of a tee_map, every stage built once and the SAME
+    operator object applied in both branches (and wherever else the same stage term occurs)"""
+    if case.get('kind') not in ('mux', 'plain') or case.get('share') or not case.get('term'):
+        return None
+    if any(s[0] in ('route', 'tee') for s in muxgen.walk(case['term'])):
+        return None
+    c = dict(case)
+    c['term'] = [['tee', rng.choice(['zip', 'combine_latest', 'merge']), [case['term'], case['term']]]]
+    c['share'] = True
+    c.pop('grouped', None)
+    return c
+
+
+def with_preludes(cases, rng, frac=0.12, share_frac=0.05):
+    """every case, and for a fraction of them additionally the re-subscription variant / the shared-operator variant"""
     for c in cases:
         yield c
         if rng.random() < frac:
             p = add_prelude(c, rng)
+            if p is not None:
+                yield p
+        if rng.random() < share_frac:
+            p = add_shared(c, rng)
             if p is not None:
                 yield p
 
@@ -138,7 +156,20 @@ def with_preludes(cases, rng, frac=0.12):
 def prelude_violation(case, r):
     """oracle for a case with a prelude, judging the real code alone: the second subscription must emit what a
     fresh pipeline object emits on the same items (outputs of a lifetime / of a sequence depend on its own items only)"""
-    if not case.get('prelude') or 'harness_exc' in r:
+    if 'harness_exc' in r:
+        return None
+    if case.get('share') and not case.get('prelude'):
+        sep = dict(case)
+        sep['share'] = False
+        f = real(sep)
+        if r['chunks'] != f['chunks']:
+            for i, (a, b) in enumerate(zip(r['chunks'], f['chunks'])):
+                if a != b:
+                    return ('shared operator objects: %s over %s with every stage built once and applied at each of its places emits %s while '
+                            'item %d is processed; with separately built equal operators it emits %s'
+                            % (json.dumps(case['term'])[:200], case['items'], json.dumps(a)[:200], i - 1, json.dumps(b)[:200]))
+        return None
+    if not case.get('prelude'):
         return None
     fresh_case = dict(case)
     del fresh_case['prelude']
